@@ -57,6 +57,30 @@ def run(chk):
             dis.append((ids[i][1], text, unhex(model.get(cid, "")[3:]) if model.get(cid, "").startswith("ok ") else model.get(cid)))
         if i % 1777 == 0:
             chk.sample({"generator": gen, "core": ids[i][1][:200], "printed": text.strip()[:200]})
+    # builders (comprehensions): the printer adds operators of its own (the `and` chain over the conditions); every user
+    # expression must stay one operand.  Decided on the implementation against CPython (the Lean model has no builders).
+    comps = gen_core.comprehensions(rng, 3000 if thorough else 400)
+    cids = [("c%d" % i, gen_core.sexp(t)) for i, t in enumerate(comps)]
+    cres = chk.harness("core", cids)
+    n_comp = 0
+    for (cid, sx), t in zip(cids, comps):
+        r = cres.get(cid, "MISSING")
+        if not r.startswith("ok "):
+            if len(chk.violations) < 5:
+                chk.violation("input", "printer did not return: %s" % r[:200], case={"kind": "core", "sexp": sx}, actual=r[:300])
+            continue
+        text = unhex(r[3:])
+        got, want = gen_core.parse_expr(text), gen_core.expected(t)
+        n_comp += 1
+        distinct.add(sx)
+        if got != want:
+            f = chk.known(sx)
+            if f:
+                chk.report_known(f, "printed builder parses to a different tree")
+            elif len(chk.violations) < 5:
+                chk.violation("input", "Python parses the printed builder %r to a different tree" % text.strip(), case={"kind": "core", "sexp": sx, "text": text},
+                              expected=repr(want)[:1500], actual=repr(got)[:1500])
+    dist["builders"] = n_comp
     for sx, a, b in dis[:5]:
         chk.broken("correspondence", "Print model and implementation disagree on %s:\n impl : %r\n model: %r" % (sx[:400], a, b))
     # grammar model vs CPython on unparenthesised prints (texts the real printer never emits)
